@@ -68,7 +68,7 @@ pub fn diff_case(
         r.counts.push((format!("ref_err: {}", reference.as_ref().err().unwrap().chars().take(70).collect::<String>()), 1));
         return r;
     };
-    let out = run_sql(ctx, &q.engine_sql());
+    let out = crate::eng::run_sql_avoiding_gkr(ctx, &q.engine_sql(), db, layout_name == "parquet");
     match &out {
         Outcome::Err(e) => {
             r.inconclusive = Some("engine-error-permitted".into());
@@ -93,6 +93,7 @@ pub fn diff_case(
                         _ => false,
                     }
                 };
+                let run_sql = |c: &Arc<ExecutionContext>, s: &str| crate::eng::run_sql_avoiding_gkr(c, s, db, layout_name == "parquet");
                 let reproducible = fails(db);
                 let small = if reproducible && db.iter().map(|t| t.rows.len()).sum::<usize>() <= 3000 { shrink_rows(db, fails, std::time::Duration::from_secs(20)) } else { db.to_vec() };
                 let (out2, ref2) = if reproducible {
